@@ -61,10 +61,10 @@ pub open spec fn pl_special(c: char) -> bool {
 }
 pub open spec fn is_bs(s: Seq<char>) -> bool { s.len() == 1 && s[0] == '\\' }
 pub proof fn lemma_quote_lits2()
-    ensures "\""@ == seq!['"'], "\\"@ == seq!['\\'],
+    ensures "\""@ == seq!['"'], "\\"@ == seq!['\\'], "`"@ == seq!['`'],
 {
-    reveal_strlit("\""); reveal_strlit("\\");
-    assert("\""@ =~= seq!['"']); assert("\\"@ =~= seq!['\\']);
+    reveal_strlit("\""); reveal_strlit("\\"); reveal_strlit("`");
+    assert("\""@ =~= seq!['"']); assert("\\"@ =~= seq!['\\']); assert("`"@ =~= seq!['`']);
 }
 pub proof fn lemma_quote_lits()
     ensures "'"@ == seq!['\''], "&"@ == seq!['&'], "|"@ == seq!['|'], ""@ == Seq::<char>::empty(),
@@ -120,13 +120,16 @@ parse_line = Fn(P, 'parse_line', ret='r',
          '!adj && new_round ==> token@.len() == 0 && sep_second@.len() == 0 && (sep@.len() == 0 || is_bs(sep@)) && sep_made@.len() == 0'),
         # ... also after concatenated quoting: whatever word was pushed, the tag an escaped character gave it is gone when the next word starts
         ('C01+C12+C13.inv.pl.an_escape_tag_does_not_outlive_its_word', '(new_round ==> sep_made@.len() == 0) && (is_bs(sep@) ==> sep_made@.len() == 0)'),
+        # text that follows a closing backquote is not appended to the command between the backquotes (`pwd`/x is not the command pwd/x)
+        ('C11+C01.inv.pl.nothing_is_appended_to_a_closed_backquoted_command', '(semi_ok && sep@ == seq![\'`\'] ==> token@ == g_bq && !has_backslash) && (new_round ==> !semi_ok)'),
         ('C01.inv.pl.backslash_word_has_no_inner_quote', '!adj && is_bs(sep@) ==> sep_second@.len() == 0'),
         # a pending literal tag belongs to the unquoted word being collected: a push that ignores it leaves it dangling
         ('C01.inv.pl.literal_tag_belongs_to_the_word_in_progress', '!adj && sep_made@.len() > 0 ==> sep@.len() == 0 && token@.len() > 0'),
         # the step that consumes a backslash-escaped operator / expansion character outside quotes tags the word
         ('C01.inv.pl.escaped_special_marks_the_word_literal', 'g_esc ==> sep_made@.len() > 0 || sep@.len() > 0'),
     ])},
-    hints={'fn-entry': 'RAW: let ghost mut adj = false; let ghost mut g_esc = false;',
+    hints={'fn-entry': 'RAW: let ghost mut adj = false; let ghost mut g_esc = false; let ghost mut g_bq: Seq<char> = Seq::empty();',
+           'before-text:semi_ok = true;': 'g_bq = token@;',
            # concatenated quoting ("a"'b', a"b") is not one of C01's argument forms: the state is specified up to that point
            'after-text:&& semi_ok {': 'adj = true;',
            'after-text:if !is_an_env && (c == \'\\\'\' || c == \'"\') {': 'if token@.len() > 0 || sep_made@.len() > 0 { adj = true; }',
